@@ -189,6 +189,12 @@ def main():
     must_raise("grad of a size-1 but complex output", lambda: grad(lambda z: (anp.sum(z) * 1j))(x))
     must_raise("grad w.r.t. int", lambda: grad(lambda z: z * 2.0)(3))
     must_raise("grad w.r.t. str", lambda: grad(lambda z: 1.0)("abc"))
+    xi = onp.array([1, 2, 3])
+    must_raise("grad w.r.t. an integer array (the derivative 0.5 would be truncated to 0)", lambda: grad(lambda z: anp.sum(z.astype(float) * 0.5))(xi))
+    must_raise("grad w.r.t. an integer array, plain arithmetic", lambda: grad(lambda z: anp.sum(z * 1.5))(xi))
+    must_raise("jacobian w.r.t. an integer array", lambda: jacobian(lambda z: z * 2.5)(xi))
+    must_raise("make_jvp w.r.t. a boolean array", lambda: make_jvp(lambda z: z * 2.0)(onp.array([True, False]))(onp.ones(2)))
+    must_raise("elementwise_grad w.r.t. an unsigned array", lambda: elementwise_grad(lambda z: z * 0.5)(onp.array([1, 2], dtype="uint8")))
     # (configurations the current tree happens not to support - negative rollaxis axes, sort / partition of matrices, pad
     #  modes, einsum without an output list, gradient with a spacing, cumprod, hypot in forward mode, ... - are NOT demanded
     #  to raise: implementing one of them correctly must not alarm.  They are raise-or-right rows of the option sweep below.)
